@@ -343,8 +343,17 @@ def build_corpus(seed, per_identity):
     from vf import common as _c
 
     for name_, fr_ in _c.recorded_frames():
+        short_ = False
+        try:
+            id_ = _c.expected_identity(fr_[3:-3])
+            if id_ in refmodel.identities():
+                refmodel.decode(id_, fr_[3:-3])
+        except refmodel.Short:
+            short_ = True  # (one log holds CRC-valid 1302 frames that are too short for their type)
+        except Exception:
+            pass
         corpus.append(dict(op=rng.choice(("parse", "reader", "ctor")), data=fr_, labelmsm=rng.choice((1, 2)),
-                           tag="recorded", enc=None, fails=False))
+                           tag="recorded", enc=None, fails=short_))
         if corpus[-1]["op"] == "ctor":
             corpus[-1]["data"] = fr_[3:-3]
     for p in (b"", b"\x3e", b"\xfe\xc0", b"\x43\x50"):
@@ -677,7 +686,10 @@ def run(ctx):
     for i in rng.sample(range(n), min(n, 200)):
         e = corpus[i]
         if e["op"] == "ctor" and not e["fails"]:
-            keep.append(RTCMMessage(payload=e["data"], labelmsm=e["labelmsm"]))
+            try:
+                keep.append(RTCMMessage(payload=e["data"], labelmsm=e["labelmsm"]))
+            except Exception:
+                continue
             if not verify(rng.randrange(n), i, "objects-alive"):
                 return
     if not check_digest(ctx, digest0, "after targeted histories"):
